@@ -218,10 +218,11 @@ const (
 	mustErr
 	mustElem
 	elemOrErr
+	userPanic // the method itself panics when called (outside the claim): anything goes
 )
 
 func (m expMode) String() string {
-	return [...]string{"any non-panicking outcome", "an error", "the element", "the element or an error"}[m]
+	return [...]string{"any non-panicking outcome", "an error", "the element", "the element or an error", "anything (the user's method panics)"}[m]
 }
 
 func numericValue(v stick.Value) (float64, bool) {
@@ -409,7 +410,10 @@ func expectation(cont, key stick.Value, args []stick.Value) (mode expMode, cands
 			if f.PkgPath != "" {
 				return mustErr, nil // unexported
 			}
-			fv := rv.FieldByName(name)
+			fv, ferr := rv.FieldByIndexErr(f.Index)
+			if ferr != nil {
+				return mustErr, nil // promoted through a nil embedded pointer: there is no such element
+			}
 			if fv.Kind() == reflect.Func {
 				return anyOutcome, nil
 			}
@@ -472,7 +476,15 @@ func expectation(cont, key stick.Value, args []stick.Value) (mode expMode, cands
 		if !convertible {
 			return mustErr, nil
 		}
-		out := m.Func.Call(in)
+		var out []reflect.Value
+		panicked := func() (p bool) {
+			defer func() { p = recover() != nil }()
+			out = m.Func.Call(in)
+			return false
+		}()
+		if panicked {
+			return userPanic, nil // e.g. a method promoted through a nil embedded pointer
+		}
 		if exactArgs {
 			return loosen(mustElem), []interface{}{out[0].Interface()}
 		}
@@ -545,6 +557,9 @@ func (p *c16) runGet(res0 *fw.Result, c, k gen.Named, argLists [][]stick.Value) 
 		in := fmt.Sprintf("GetAttr(%s, %s, args#%d %s)", c.Label, k.Label, ai, clip(fmt.Sprintf("%#v", args), 80))
 		key := "c16:" + in
 		switch {
+		case mode == userPanic:
+			res.AddClass("user-method-panics")
+			continue
 		case pan != nil:
 			res.Fail("panic", key, fmt.Sprintf("%s panicked: %v (expected %s)", in, pan, mode), nil)
 			res.AddClass("panic")
